@@ -12,6 +12,8 @@ import (
 type MemState struct {
 	arrays map[string]string
 	ep     *epoch
+	lost   bool // some call with an unknown frame happened: model fields are unrelated to the entry state
+	memLost bool // Go memory was havocked wholesale (assigns mem)
 }
 
 type epoch struct {
@@ -30,7 +32,7 @@ func (ex *Exec) newMem() *MemState {
 }
 
 func (m *MemState) clone() *MemState {
-	n := &MemState{arrays: make(map[string]string, len(m.arrays)), ep: m.ep}
+	n := &MemState{arrays: make(map[string]string, len(m.arrays)), ep: m.ep, lost: m.lost, memLost: m.memLost}
 	for k, v := range m.arrays {
 		n.arrays[k] = v
 	}
@@ -97,6 +99,9 @@ func (ex *Exec) memHavoc(m *MemState, name string) string {
 	s := ex.arrSorts[name]
 	v := ex.fresh(name+"!h", s)
 	m.arrays[name] = v
+	if name == "M_Ref" {
+		ex.umapAxiom(v)
+	}
 	return v
 }
 
@@ -132,6 +137,10 @@ func (ex *Exec) mergeMem(states []*MemState, conds []string) *MemState {
 	} else {
 		ex.epochCtr++
 		out = &MemState{arrays: map[string]string{}, ep: &epoch{id: ex.epochCtr, parents: states, conds: conds}}
+	}
+	for _, s := range states {
+		out.lost = out.lost || s.lost
+		out.memLost = out.memLost || s.memLost
 	}
 	ks := make([]string, 0, len(keys))
 	for k := range keys {
@@ -171,6 +180,7 @@ func (ex *Exec) initialArrayAxioms(name, v string, s Sort, entry bool) {
 			ex.emit("(assert (forall ((a Int)) (! (<= (root (sarr (select %s a))) allocbase) :pattern ((select %s a)))))", v, v)
 		}
 	case "M_Ref":
+		ex.umapAxiom(v)
 		if entry {
 			ex.emit("(assert (forall ((a Int)) (! (<= (root (select %s a)) allocbase) :pattern ((select %s a)))))", v, v)
 		}
@@ -245,6 +255,14 @@ func (ex *Exec) store(m *MemState, t types.Type, addr string, v string) {
 	}
 	arr := ex.leafArray(t)
 	ex.memSet(m, arr, fmt.Sprintf("(store %s %s %s)", ex.memGet(m, arr), addr, v))
+	if arr == "M_Ref" && ex.declaredFun["umap"] {
+		if ut := ex.unstructuredType(); ut != nil {
+			fa := ex.D.fieldAddr(ut, 0, "p")
+			fn := fa[1:strings.Index(fa, " ")]
+			// a store into the Object field of an unstructured object fixes its identity (assigned at most once, see DESIGN)
+			ex.emit("(assert (=> (and (= %s (%s (%s_inv %s))) (not (= %s 0))) (= (umap (%s_inv %s)) %s)))", addr, fn, fn, addr, v, fn, addr, v)
+		}
+	}
 }
 
 // leafArraysOf lists the memory arrays a store of type t may touch.
